@@ -301,6 +301,7 @@ func setLoop(p *Prog, r *Report, rule string) (*FuncInfo, *Flat, *ast.RangeStmt)
 		"when the iterator reports that no directory is left the loop body can still store or continue")
 	if iterOK && bodyOK {
 		f = f.WithoutEdges(func(from *GNode, e Edge) bool { return from.ID == head && e.Label == 2 })
+		f.InfeasibleLoopExits = append(f.InfeasibleLoopExits, loop)
 	}
 	return fi, f, loop
 }
